@@ -85,7 +85,7 @@ EXPECT = [
     ("make_trainable padded", ["C10", "C19"]), ("delete_channel damaged", ["C19"]), ("delete_recordings on a view", ["C19"]),
     ("set_ncomp wrongly refused", ["C13"]), ("leaked tracers", ["C19", "C18"]), ("attribute views selected everything", ["C11"]),
     ("checkpoint_lengths raised", ["C07", "C06"]), ("recordings of synaptic states", ["C08", "C07"]), ("initial states of synapses", ["C10"]),
-    ("set_ncomp left groups", ["C13"]),
+    ("set_ncomp left groups", ["C13"]), ("clamps of synaptic states", ["C08"]), ("jax.sparse ignored", ["C09", "C08", "C19"]),
 ]
 
 
